@@ -94,6 +94,11 @@ def full_width(curves, rng, quick, grp_scale=1.0, mul_scale=1.0):
         per_op = max(6, int((18 if quick else 0.6 * len(corners)) * mul_scale))
 
         must = [0, cv.n, 2 * cv.n, -cv.n, cv.n - 1, cv.n + 1, 1, -1]       # for EVERY routine: multiples of the order and their neighbours
+        # ... and scalars with more DIGITS than the order / the field (one digit beyond, and close to the integer
+        # precision), of both signs: recoding buffers are sized from the order, not from the scalar (seed C08-w1)
+        nd = -(-cv.n.bit_length() // cv.dgb)
+        must = [(1 << (cv.dgb * (nd + 1))) + 1, -((1 << (cv.bnbits - 2)) + 5)] + must
+        must = [k for k in must if abs(k).bit_length() <= cv.bnbits]
 
         def ks_for(op, corners=corners, per_op=per_op, must=must):
             if per_op >= len(corners):
